@@ -113,6 +113,24 @@ def run(ctx):
         return any(o.res in ('exc:elem', 'exc:alloc') for o in obs)
     VC.run(ctx, cfgs, gen, n, preds=(exc_pred, VC.fault_pred), nontrivial=nontrivial, label='C09 fault schedule', signature=signature, max_report=6)
     ctx.coverage['fault_kinds_fired'] = ctx.coverage.get('exception_kinds', {})
+    # SmallSet::grow() under a throwing allocation (where known finding V18 lives)
+    g = smallset_grow(ctx)
+    if g is not None:
+        gbad, gtot = g
+        ctx.coverage['smallset_grow'] = {'rule': 'SmallSet<E,N> (N = 1, 3, 4; std::set- and FlatSet-backed) filled to N, one more insertion with the k-th '
+                                         'allocator call throwing, k = 1..N+2, one process per scenario: visible elements alive and not moved-from, no '
+                                         'object outside the set, erasing everything visible leaves an empty set, nothing alive after destruction',
+                                         'total': gtot, 'failing': len(gbad)}
+        seen = set()
+        for h, d in gbad:
+            sig = grow_signature(h)
+            key = sig.get('finding', h)
+            if key in seen:
+                continue
+            seen.add(key)
+            ctx.violation(f'SmallSet::grow interrupted by a throwing allocation: {d[:200]}',
+                          'kind=smallset-grow\n# harness/setgrow_harness.cpp\n' + ''.join(f'scenario: {hh}\n#   {dd}\n' for hh, dd in gbad if grow_signature(hh) == sig),
+                          found_input=True, signature=sig)
     # element types whose move constructor throws: the exception must reach the caller (a wrong noexcept specification makes it
     # std::terminate), nothing leaked or destroyed twice, both vectors usable afterwards
     r = throwing_move(ctx)
@@ -152,8 +170,50 @@ def throwing_move(ctx, only=None):
         bad.append(('-', 'harness produced no TOTAL line: ' + out[-300:]))
     return bad, (tot[0] if tot else '')
 
+def smallset_grow(ctx, only=None):
+    """SmallSet::grow() interrupted by a throwing allocation (harness/setgrow_harness.cpp): backing set x N x throw at the k-th
+    allocator call, one process per scenario. Returns (failing scenarios [(header, detail)], TOTAL line)."""
+    (path, log), = C.build_many([dict(src='setgrow_harness.cpp', defs=[], name='setgrow')])
+    if path is None:
+        ctx.violation('SmallSet grow harness does not build: ' + log[-300:], 'kind=build\n' + log[-3000:], found_input=True)
+        return None
+    p = C.sh([path], timeout=600)
+    lines = ((p.stdout or '') + (p.stderr or '')).splitlines()
+    bad = []
+    for i, l in enumerate(lines):
+        if 'VIOLATION' in l:
+            j = i
+            while j >= 0 and '->' not in lines[j]:
+                j -= 1
+            hdr = lines[j] if j >= 0 else l
+            bad.append((hdr.split('->')[0].strip(), ' | '.join(x.strip() for x in lines[j:i + 1])[:400]))
+    if only is not None:
+        bad = [b for b in bad if b[0] in only]
+    tot = [l for l in lines if l.startswith('TOTAL')]
+    if not tot:
+        bad.append(('-', 'harness produced no TOTAL line: ' + '\n'.join(lines)[-300:]))
+    return bad, (tot[0] if tot else '')
+
+def grow_signature(hdr):
+    """known finding V18: std::set-backed SmallSet, the k-th NODE allocation of grow() throws after at least one element was moved
+    into the backing set (2 <= k <= N)"""
+    f = hdr.split()
+    try:
+        kv = dict(x.split('=') for x in f[2:])
+        if f[0] == 'grow' and f[1] == 'stdset' and 2 <= int(kv['k']) <= int(kv['n']):
+            return {'finding': 'V18'}
+    except Exception:
+        pass
+    return {}
+
 def replay(ctx, path):
     txt = open(path).read()
+    if 'kind=smallset-grow' in txt:
+        want = [l[len('scenario: '):].strip() for l in txt.splitlines() if l.startswith('scenario: ')]
+        r = smallset_grow(ctx, only=set(want))
+        if r is None or r[0]:
+            print('REPLAY: still fails:', '; '.join(d for h, d in (r[0] if r else []))[:600]); return 1
+        print('REPLAY: no failure'); return 0
     if 'kind=throwing-move' in txt:
         rc = 0
         for l in txt.splitlines():
